@@ -781,3 +781,67 @@ Proof.
       apply (Forall2_right _ _ _ _ P2 FN).
     + intros AI. apply E5; [exact AI|discriminate].
 Qed.
+
+(** * 5. the declared type of a column the change set does not modify
+    [sqlite_type_changed cf col = Some false] is what "the differ reports no type change between the inspected column
+    [cf] and the desired column [col]" means (diff.typeChanged: equal Go type class, and for a type name outside the
+    catalogue -- sqlite.UserDefinedType -- equal type text). *)
+Lemma type_unchanged_spec cf col :
+  sqlite_type_changed cf col = Some false ->
+  c_class col = c_class cf /\ (c_class cf = UDT_CLASS -> c_T col = c_T cf).
+Proof.
+  unfold sqlite_type_changed. destruct (N.eqb (c_class cf) 0 || N.eqb (c_class col) 0); [discriminate|].
+  destruct (N.eqb (c_class cf) UDT_CLASS) eqn:E; intros H; inversion H as [H1]; clear H.
+  - apply orb_false_iff in H1. destruct H1 as [A B]. apply negb_false_iff in A. apply negb_false_iff in B.
+    apply N.eqb_eq in A. apply N.eqb_eq in E. apply str_eqb_eq in B. split; [congruence|intros _; symmetry; exact B].
+  - apply negb_false_iff in H1. apply N.eqb_eq in H1. split; [symmetry; exact H1|].
+    intros X. rewrite X, N.eqb_refl in E. discriminate.
+Qed.
+
+(** the rebuilt table declares every column exactly as the desired table does (name, type text, class, nullability,
+    default, generation expression: the whole [column] record); so a column whose type the differ found unchanged is
+    re-created with the inspected type text when that text is outside the catalogue, and with a type of the same
+    class (hence, for the catalogue of sqlite.ParseType, the same affinity) otherwise *)
+Theorem engine_untouched_type_text_kept from tox cs r sk d s d' s' cf col :
+  alterable (x_t tox) cs = false ->
+  modifyTable from tox cs = Some (r, sk) ->
+  db_fk d = false ->
+  exec_seq_all (d, s) (map pc_cmd r) = Ok (d', s') ->
+  In col (t_cols (x_t tox)) ->
+  sqlite_type_changed cf col = Some false ->
+  exists rows', content (x_name tox) d' = Some (t_cols (x_t tox), rows') /\
+    c_class col = c_class cf /\ (c_class cf = UDT_CLASS -> c_T col = c_T cf).
+Proof.
+  intros HA HM HF HE HI HT.
+  destruct (rebuild_segment from tox cs r sk d s d' s' HA HM HF HE) as [prs [cold [tnew [_ [_ [_ [E4 _]]]]]]].
+  eexists. split; [exact E4|]. apply type_unchanged_spec. exact HT.
+Qed.
+
+(** * 6. the bracket: for ALL schemas and ALL change lists, a plan that contains a DROP TABLE -- every DropTable and
+    every rebuild does, whatever the desired schema says about foreign keys -- starts by switching enforcement off and
+    ends by switching it on, with no pragma in between *)
+Theorem engine_bracket from to cs p :
+  PlanChanges from to cs = Some p ->
+  existsb is_drop_table (plan_stmts p) = true ->
+  exists mid, plan_stmts p = SPragmaFK false :: mid ++ [SPragmaFK true] /\
+              forallb (fun s => negb (is_pragma s)) mid = true.
+Proof.
+  intros HP HD. destruct (plan_fk_bracket from to cs p HP) as [body [sk [E1 [E2 [E3 _]]]]].
+  unfold plan_stmts in *. rewrite E1 in *. destruct sk.
+  - exists (map pc_cmd body). split; [simpl; rewrite map_app; reflexivity|].
+    rewrite forallb_forall in *. intros s Hs. apply in_map_iff in Hs. destruct Hs as [c [<- Hc]]. apply E2. exact Hc.
+  - exfalso. specialize (E3 eq_refl). apply existsb_exists in HD. destruct HD as [s [Hs Hd]].
+    apply in_map_iff in Hs. destruct Hs as [c [<- Hc]]. rewrite forallb_forall in E3. specialize (E3 c Hc).
+    rewrite Hd in E3. discriminate.
+Qed.
+
+(** a rebuild always contains the DROP TABLE of the table *)
+Lemma rebuild_has_drop from tox cs r sk :
+  alterable (x_t tox) cs = false -> modifyTable from tox cs = Some (r, sk) ->
+  sk = true /\ In (SDropTable (x_name tox)) (map pc_cmd r).
+Proof.
+  intros HA HM. unfold modifyTable in HM. rewrite HA in HM.
+  destruct (addTable _) as [created|]; [|discriminate]. destruct (copyRows _ _ cs) as [ins|]; [|discriminate].
+  destruct (addIndexes _ _) as [idxs|]; [|discriminate]. inv_ok HM. split; [reflexivity|].
+  rewrite !map_app. apply in_or_app. right. apply in_or_app. right. left. reflexivity.
+Qed.
